@@ -66,6 +66,22 @@ type foreignErr struct {
 func (f *foreignErr) Error() string { return f.msg }
 func (f *foreignErr) TypeId() int32 { return f.id }
 
+// embTransport / embApp are user-defined error types that embed a library exception (and so expose its
+// type id) but are not library exceptions themselves; their text is their own.
+type embTransport struct {
+	*thrift.TransportException
+	note string
+}
+
+func (e *embTransport) Error() string { return "outer(" + e.note + ")" }
+
+type embApp struct {
+	thrift.ApplicationException
+	note string
+}
+
+func (e *embApp) Error() string { return "outer(" + e.note + ")" }
+
 const (
 	kPlain = iota
 	kTransport
@@ -150,6 +166,10 @@ func buildChain(steps []ErrStep, nodes *[]*enode, excludedF1 *int) (*enode, *evi
 				n.err, n.kind, n.typeID, n.msg = thrift.NewApplicationException(s.TypeID, msg), kApplication, s.TypeID, msg
 			case "foreign":
 				n.err, n.kind, n.typeID, n.msg = &foreignErr{s.TypeID, msg}, kForeign, s.TypeID, msg
+			case "emb_transport":
+				n.err, n.kind, n.typeID, n.msg = &embTransport{thrift.NewTransportException(s.TypeID, "inner "+msg), msg}, kForeign, s.TypeID, "outer("+msg+")"
+			case "emb_app":
+				n.err, n.kind, n.typeID, n.msg = &embApp{*thrift.NewApplicationException(s.TypeID, "inner "+msg), msg}, kForeign, s.TypeID, "outer("+msg+")"
 			case "uncmp":
 				n.err, n.kind = multiErr{errors.New(msg), io.EOF}, kPlain
 			default:
@@ -367,7 +387,7 @@ var namedCodes = []int32{0, 1, 2, 3, 4, 5, 6, 7, 8, 9, 10, 11, -1, 0x7fffffff, -
 func genErrStep(t *rapid.T, leaf bool) ErrStep {
 	var s ErrStep
 	if leaf {
-		s.Op = rapid.SampledFrom([]string{"plain", "eof", "transport", "protocol", "protocol", "application", "foreign", "foreign", "uncmp"}).Draw(t, "leaf")
+		s.Op = rapid.SampledFrom([]string{"plain", "eof", "transport", "protocol", "protocol", "application", "foreign", "foreign", "uncmp", "emb_transport", "emb_app"}).Draw(t, "leaf")
 	} else {
 		s.Op = rapid.SampledFrom([]string{"wrapf", "wrapsame", "pewrap", "pewrap", "pewrap", "prepend", "prepend", "prepend"}).Draw(t, "wrap")
 	}
